@@ -3,9 +3,10 @@
 # working tree is occupied by seedall.sh); results go to a scratch directory, nothing under /verif is written.
 set -u
 TIER="$1"; shift
+export VERIF_HARNESS=/var/tmp/harness_snapc.$$; rm -rf $VERIF_HARNESS; cp -r /verif/harness $VERIF_HARNESS
 W=/var/tmp/cleanrepo.$$; OUT=/var/tmp/cleantry.$$; B=/var/tmp/cleanbuild.$$
 git -C /repo worktree add --detach -q $W HEAD || exit 2
-cleanup() { git -C /repo worktree remove --force $W 2>/dev/null; rm -rf "$B"; [ -z "${KEEP_OUT:-}" ] && rm -rf "$OUT"; }
+cleanup() { rm -rf $VERIF_HARNESS; git -C /repo worktree remove --force $W 2>/dev/null; rm -rf "$B"; [ -z "${KEEP_OUT:-}" ] && rm -rf "$OUT"; }
 trap cleanup EXIT
 mkdir -p "$OUT/evidence" "$OUT/replays" "$B"; cp /verif/known_findings.json "$OUT/"
 for id in "$@"; do
